@@ -91,7 +91,11 @@ class MemConn(secsgem.common.Connection):
         self.refuse = 0  # fault input: the next `refuse` calls of send_data return False (the socket refuses the write)
 
     def enable(self):
-        pass
+        # a transport whose enable() brings the link up synchronously (serial line, in-process pipe): connected and selected
+        # before enable() returns
+        rig = self.rig
+        if rig is not None and rig.sync_enable:
+            rig.select(inline=True)
 
     def disable(self):
         pass
@@ -239,6 +243,7 @@ class Rig:
         self.p._system_counter = 1000  # deterministic own system bytes, far from the ranges used for inbound messages
         self.c = self.p._connection
         self.c.rig = self
+        self.sync_enable = False  # the connection's enable() brings the link up (connected + selected) before it returns
         self.connected = False  # a transport connection exists (the protocol's receiver thread runs)
         self.link = False       # ... and the session is selected
         self.fed = 0
@@ -318,14 +323,17 @@ class Rig:
         if box:
             raise box[0]
 
-    def connect(self):
-        """the transport connection comes up (no Select yet)"""
+    def connect(self, inline=False):
+        """the transport connection comes up (no Select yet); `inline`: called from inside the watched helper thread already"""
         if not self.connected:
-            self.bounded(lambda: self.c.on_connected({"source": self.c}), "on_connected")
+            if inline:
+                self.c.on_connected({"source": self.c})
+            else:
+                self.bounded(lambda: self.c.on_connected({"source": self.c}), "on_connected")
             self.connected = True
 
-    def select(self):
-        self.connect()
+    def select(self, inline=False):
+        self.connect(inline)
         self.feed(secsgem.hsms.HsmsMessage(secsgem.hsms.HsmsSelectReqHeader(self.CONTROL + self.fresh()), b""))
         self.link = True
 
